@@ -24,6 +24,7 @@ VNull == V("null")
 VRe(text, flags, phs) == [V("re") EXCEPT !.s = text, !.flags = flags, !.phs = phs]
 VCidr(text) == [V("cidr") EXCEPT !.s = text]
 VCmp(op, n) == [V("cmp") EXCEPT !.s = op, !.num = n]
+VCmpTs(op, unit, n) == [V("cmp") EXCEPT !.s = op, !.num = n, !.flags = unit]      \* a part of a timestamp compared with a number
 VTs(unit, n) == [V("tspart") EXCEPT !.s = unit, !.num = n]
 VFieldRef(f, sw, ew) == [V("fieldref") EXCEPT !.s = f, !.flags = <<sw, ew>>]
 VExists(b) == [V("exists") EXCEPT !.b = b]
@@ -221,7 +222,8 @@ ValueMod(m, v, applied, hasField, raw) ==
       \* a timestamp part is a number in the object model; whether a further numeric modifier
       \* may follow it is not defined by the specification
       [] m \in CmpOps ->
-           (IF v.t = "tspart" THEN UNSPEC ELSE IF v.t = "bignum" THEN OK(<<VCmpBig(m, v.s)>>)
+           (IF v.t = "tspart" THEN OK(<<VCmpTs(m, v.s, v.num)>>)       \* field|hour|gte: the hour is compared
+            ELSE IF v.t = "bignum" THEN OK(<<VCmpBig(m, v.s)>>)
             ELSE IF v.t # "num" THEN REJECT ELSE OK(<<VCmp(m, v.num)>>))
       [] m \in TsUnits ->
            (IF v.t = "tspart" THEN UNSPEC
